@@ -189,6 +189,38 @@ def run(ctx, rep):
                                   name, what, b.where(bi), missing))
     rep.floor('overflow sites on raw arguments examined', n_assert, 3)
     beyond_end_rule(f, P, rep, 'C13.3')
+    device_kind_rule(f, rep, 'C13.4')
+
+
+def device_kind_rule(f, rep, rid):
+    """The device-kind predicates of Qcow2Info the validation depends on (read-only, has a backing file, is a
+    backing file) are tests of separate flag bits: a device that is only read-only is not taken for a backing
+    image (reads at the end would be answered with zeros instead of an error), an overlay is not read-only, ...
+    is_read_only may additionally hold for a backing image."""
+    from ..bitsem import Evaluator
+    from . import c09
+    rep.rule(rid, 'is_back_file / has_back_file / is_read_only test separate bits of Qcow2Info.flags (each true for some '
+                  'single-bit flag word; no single bit makes two of them true, except that a backing image may count as read-only)')
+    ev = Evaluator(f)
+    bits = {}
+    for pred in ('is_read_only', 'has_back_file', 'is_back_file'):
+        bits[pred] = set(c09.flag_bits(f, ev, pred)[0])
+        rep.ob(rid, '%s is true for a single-bit flag word' % pred, bool(bits[pred]), 'true for no single bit')
+    rep.floor('device-kind predicates evaluated', len(bits), 3)
+    b = f.body('dev::info::Qcow2Info::is_back_file')
+    pairs = [('is_read_only', 'is_back_file', 'a device that is only read-only is taken for a backing image: read_at at or beyond the end '
+              'returns zeros and Ok instead of an error / the clamped count'),
+             ('is_read_only', 'has_back_file', 'a read-only device without a backing file is taken for an overlay'),
+             ('has_back_file', 'is_back_file', 'an overlay is taken for a backing image'),
+             ('has_back_file', 'is_read_only', 'a writable overlay is taken for read-only'),
+             ('is_back_file', 'has_back_file', 'a backing image is taken for an overlay')]
+    for a, c, why in pairs:
+        own = bits[a] - (bits['is_back_file'] if a == 'is_read_only' else set())
+        ok = bool(own) and not (own & bits[c])
+        rep.ob(rid, 'a flag bit of %s does not satisfy %s' % (a, c), ok, 'bits %s / %s' % (sorted(bits[a]), sorted(bits[c])))
+        if not ok:
+            rep.violation(rid, '%s:%s=>%s' % (rid, a, c), b.where(0),
+                          'Qcow2Info flag predicates overlap (%s bits %s, %s bits %s): %s' % (a, sorted(bits[a]), c, sorted(bits[c]), why))
 
 
 def beyond_end_rule(f, P, rep, rid):
